@@ -82,6 +82,18 @@ func (tm *typesMap) FieldStrings(fields []*types.Var) ([]string, error) {
 		return nil, err
 	}
 	strctLines := bytes.Split(strctStr, []byte{'\n'})
+	if len(strctLines) < 3 {
+		// gofmt keeps a struct with fewer than two fields on a single line: "var a struct{ X T }".
+		ss := make([]string, len(fields))
+		for i, field := range fields {
+			if field.Embedded() {
+				ss[i] = tm.TypeString(field.Type())
+			} else {
+				ss[i] = field.Name() + " " + tm.TypeString(field.Type())
+			}
+		}
+		return ss, nil
+	}
 	ss := make([]string, len(strctLines)-2)
 	for i := range strctLines[1 : len(strctLines)-1] {
 		ss[i] = string(bytes.TrimSpace(strctLines[i+1]))
